@@ -305,6 +305,24 @@ def _safe_remove(el: etree.Element):
         parent.remove(el)
 
 
+def _remove_ignored(el: etree.Element):
+    """Remove content renderers ignore, keeping the character data that follows it.
+
+    lxml stores the text after an element as that element's tail and drops it along
+    with the element; inside <text> that would lose characters.
+    """
+    parent = el.getparent()
+    if parent is None:
+        return
+    if el.tail and el.tail.strip():
+        prev = el.getprevious()
+        if prev is not None:
+            prev.tail = (prev.tail or "") + el.tail
+        else:
+            parent.text = (parent.text or "") + el.tail
+    parent.remove(el)
+
+
 def _id_of_target(url):
     match = re.match(r"^url[(]#([\w-]+)[)]$", url)
     if not match:
@@ -1048,7 +1066,7 @@ class SVG:
                 del el.attrib[attr]
 
         for el in el_to_rm:
-            el.getparent().remove(el)
+            _remove_ignored(el)
 
         # Make svg default; destroy anything unexpected
         good_nsmap = {
@@ -1075,7 +1093,7 @@ class SVG:
             # a processing instruction before or after the root element has no parent;
             # it is not part of what we serialize (the copying form drops it too)
             if parent is not None:
-                parent.remove(el)
+                _remove_ignored(el)
 
         return self
 
@@ -1090,7 +1108,7 @@ class SVG:
         self._update_etree()
 
         for el in self.xpath("//svg:symbol[not(@id)]"):
-            el.getparent().remove(el)
+            _remove_ignored(el)
 
         return self
 
@@ -1104,7 +1122,7 @@ class SVG:
 
         for tag in ("title", "desc", "metadata", "comment"):
             for el in self.xpath(f"//svg:{tag}"):
-                el.getparent().remove(el)
+                _remove_ignored(el)
 
         return self
 
